@@ -529,6 +529,15 @@ class Obl:
         for pat in s.get('must_have', []):
             if not any(re.search(pat, r.get('property', '') + ' ' + r.get('description', '')) for r in others):
                 return self.undecided('vacuity: expected CBMC property matching %r not generated' % pat)
+        xf = s.get('expected_fail', [])
+        if xf:
+            # named CBMC properties that are expected to fail by construction (stated in `trusted`); they must exist and fail
+            exp = [r for r in others if any(re.search(p_, r.get('property', '')) for p_ in xf)]
+            if len(exp) < len(xf) or any(r['status'] != 'FAILURE' for r in exp):
+                return self.undecided('expected-to-fail property missing or not failing: %s' % xf)
+            others = [r for r in others if r not in exp]
+            self.res['cbmc_properties'] = len(others)
+            self.res['discharged'] = sum(1 for r in others if r['status'] == 'SUCCESS')
         bad = [r for r in others if r['status'] != 'SUCCESS']
         self.res['samples'] = [{'property': r.get('property'), 'description': r.get('description'), 'status': r['status']}
                                for r in (others[:2] + [r for r in others if 'postcondition' in r.get('property', '') or 'assertion' in r.get('property', '')][:4])]
